@@ -115,6 +115,57 @@ pub fn content_changes(v: &Value) -> Value {
     }
 }
 
+/// LSP position of a byte offset (lines end at `\n`, `\r\n` or `\r`; columns count UTF-16 code units)
+fn lsp_pos(text: &str, off: usize) -> Value {
+    let (mut line, mut col) = (0u64, 0u64);
+    let b = text.as_bytes();
+    let mut i = 0;
+    for c in text.chars() {
+        if i >= off {
+            break;
+        }
+        if c == '\n' || (c == '\r' && b.get(i + 1) != Some(&b'\n')) {
+            line += 1;
+            col = 0;
+        } else if c == '\r' {
+            col += 1;
+        } else {
+            col += c.len_utf16() as u64;
+        }
+        i += c.len_utf8();
+    }
+    json!({"line": line, "character": col})
+}
+
+/// ranged edits that turn `old` into `new`, as one notification: a scratch line is inserted at the top, the differing middle is
+/// replaced (in the coordinates the first edit left), the scratch line is removed again
+fn ranged_changes(old: &str, new: &str) -> Value {
+    let mut p = old.bytes().zip(new.bytes()).take_while(|(a, b)| a == b).count();
+    while !old.is_char_boundary(p) || !new.is_char_boundary(p) {
+        p -= 1;
+    }
+    // (do not split a CRLF)
+    if p > 0 && old.as_bytes().get(p - 1) == Some(&b'\r') {
+        p -= 1;
+    }
+    let mut q = old[p..].bytes().rev().zip(new[p..].bytes().rev()).take_while(|(a, b)| a == b).count();
+    while !old.is_char_boundary(old.len() - q) || !new.is_char_boundary(new.len() - q) {
+        q -= 1;
+    }
+    if q > 0 && old.as_bytes().get(old.len() - q) == Some(&b'\n') && old.len() - q > p && old.as_bytes().get(old.len() - q - 1) == Some(&b'\r') {
+        q -= 1;
+    }
+    let scratch = "// scratch\n";
+    let t1 = format!("{}{}", scratch, old);
+    let (a, b) = (scratch.len() + p, scratch.len() + old.len() - q);
+    let t2 = format!("{}{}{}", &t1[..a], &new[p..new.len() - q], &t1[b..]);
+    json!([
+        {"range": {"start": lsp_pos(old, 0), "end": lsp_pos(old, 0)}, "text": scratch},
+        {"range": {"start": lsp_pos(&t1, a), "end": lsp_pos(&t1, b)}, "text": &new[p..new.len() - q]},
+        {"range": {"start": lsp_pos(&t2, 0), "end": lsp_pos(&t2, scratch.len())}, "text": ""},
+    ])
+}
+
 pub fn run(rest: &str) -> String {
     let spec: Value = match serde_json::from_str(rest) {
         Ok(v) => v,
@@ -209,6 +260,20 @@ pub fn run(rest: &str) -> String {
             json!({"capabilities": caps})
         };
         w.send(json!({"jsonrpc":"2.0","id":"init","method":"initialize","params":init_params}));
+        // a conforming client: it waits for the answer to `initialize` and sends document changes in the form the server asked for
+        // (`textDocumentSync`: 1 = the full text, 2 = ranged edits, each in the coordinates of the text the previous one left)
+        let mut sync_kind = 1u64;
+        let t0 = Instant::now();
+        while t0.elapsed() < Duration::from_secs(10) {
+            let got = msgs2.lock().unwrap().iter().find(|m| m.get("id") == Some(&json!("init")) && m.get("method").is_none()).cloned();
+            if let Some(m) = got {
+                let ts = &m["result"]["capabilities"]["textDocumentSync"];
+                sync_kind = ts.as_u64().or_else(|| ts["change"].as_u64()).unwrap_or(1);
+                break;
+            }
+            tokio::time::sleep(Duration::from_millis(2)).await;
+        }
+        let mut doc_texts: std::collections::HashMap<String, String> = std::collections::HashMap::new();
         w.send(json!({"jsonrpc":"2.0","method":"initialized","params":{}}));
         // versions as editors send them: 1 at didOpen (again after a close), +1 per didChange
         let mut versions: std::collections::HashMap<String, i64> = std::collections::HashMap::new();
@@ -221,6 +286,7 @@ pub fn run(rest: &str) -> String {
                     w.send(json!({"jsonrpc":"2.0","method":"textDocument/didOpen","params":{"textDocument":{
                         "uri": uri(&dir2, step[1].as_str().unwrap_or("")), "languageId":"tablegen","version":1,"text": step[2]}}}));
                     versions.insert(step[1].as_str().unwrap_or("").to_string(), 1);
+                    doc_texts.insert(step[1].as_str().unwrap_or("").to_string(), step[2].as_str().unwrap_or("").to_string());
                 }
                 "close" => {
                     w.send(json!({"jsonrpc":"2.0","method":"textDocument/didClose","params":{"textDocument":{
@@ -232,8 +298,20 @@ pub fn run(rest: &str) -> String {
                         *v += 1;
                         *v
                     };
+                    let name = step[1].as_str().unwrap_or("").to_string();
+                    let last_text = match step[2].as_array() {
+                        Some(a) => a.last().and_then(|t| t.as_str()).map(|t| t.to_string()),
+                        None => step[2].as_str().map(|t| t.to_string()),
+                    };
+                    let changes = match (sync_kind, doc_texts.get(&name), &last_text) {
+                        (2, Some(old), Some(new)) => ranged_changes(old, new),
+                        _ => content_changes(&step[2]),
+                    };
+                    if let Some(t) = last_text {
+                        doc_texts.insert(name, t);
+                    }
                     w.send(json!({"jsonrpc":"2.0","method":"textDocument/didChange","params":{"textDocument":{
-                        "uri": uri(&dir2, step[1].as_str().unwrap_or("")), "version":version},"contentChanges":content_changes(&step[2])}}));
+                        "uri": uri(&dir2, step[1].as_str().unwrap_or("")), "version":version},"contentChanges":changes}}));
                 }
                 "req" => {
                     expected.push(step[1].clone());
